@@ -31,6 +31,17 @@ def fieldOf : String → Option Field
 generates itself, so every field is derived -/
 def emptyFields : List String := ["ParentHash", "Height", "Root", "IdentityRoot", "BlockSeed", "Time", "Flags"]
 
+/-- the timestamps the harness tries, as values relative to the model context (prevTime 100, minDelay 10, now 120,
+maxFuture 120).  The model's integers are unbounded: every int64 below zero is represented by 0 (all of them lie below the
+lower bound `prevTime + minDelay`), and an int64 whose `time.Time` representation wraps by the largest value. -/
+def timeOf : String → Option Nat
+  | "early" => some 105 | "parent" => some 100 | "parent-plus9" => some 109 | "parent-minus1" => some 99
+  | "zero" => some 0 | "negative" => some 0 | "min-int64" => some 0 | "min-int64-wrap9" => some 0
+  | "min-int64-wrap10" => some 0 | "min-int64-wrap" => some 0
+  | "future" => some 500 | "future-edge" => some 241 | "max-int64" => some 9223372036854775807
+  | "max-internal-wrap" => some 9223372036854775807
+  | _ => none
+
 def verdict (v : Verdict) : String := match v with | .ok => "acc" | .err _ => "rej"
 
 def step (_ : Unit) (line : String) : Unit × String :=
@@ -50,7 +61,7 @@ def step (_ : Unit) (line : String) : Unit × String :=
     | none => ((), "bad-op")
     | some f =>
       let h' : Hdr :=
-        if f = .time then (if op = "early" then setField hdr f 105 else if op = "future" then setField hdr f 500 else hdr)
+        if f = .time then (match timeOf op with | some t => setField hdr f t | none => hdr)
         else if f = .proposerPubKey then (if op = "ineligible" then setField (setField (setField hdr f 2) .seedProof 12) .blockSeed 22 else setField hdr f 3)
         else setField hdr f (hdr f + 1)
       ((), verdict (validateBlock ctx h' 2))
@@ -60,6 +71,10 @@ def step (_ : Unit) (line : String) : Unit × String :=
     let h' : Hdr := if rec = "1" then setField (setField hdr .txHash (ctx.txHashOf b')) .ipfsHash (ctx.cidOf b') else hdr
     ((), verdict (validateBlock ctx h' b'))
   | ["tamper", "empty", name] => ((), if name ∈ emptyFields then "rej" else "bad-op")
+  -- a block that is consistent in every derived field but proposed by a key that may not propose (with or without a
+  -- transaction in its body that would make the key eligible afterwards): eligibility is judged on the parent state
+  | ["outsider", _] =>
+    ((), verdict (validateBlock ctx (setField (setField (setField hdr .proposerPubKey 2) .seedProof 12) .blockSeed 22) 2))
   | ["orig"] => ((), verdict (validateBlock ctx hdr 2))
   | _ => ((), "bad-op")
 
